@@ -319,5 +319,6 @@ pub fn finish(name: &str, files: &[Arc<TFile>], acc: Acc, n_cfg: u64, rule: &str
         extra,
         found,
         wall_s: t0.elapsed().as_secs_f64(),
+        ..Default::default()
     }
 }
